@@ -170,6 +170,8 @@ fn controlled_mid_size(ctx: &mut Ctx, prop: &'static str, classes: &'static [&'s
             case.requested.push(0);
         }
         case.shaped = r.gen_bool(0.3);
+        case.spaced = r.gen_bool(0.2);
+        case.no_tail = r.gen_bool(0.25);
         sampled_schedules(ctx, prop, classes, &case, r, 4, mask != 0);
         ctx.count("mid_size_graph_cases", 1);
     }
@@ -208,6 +210,18 @@ fn free_stress(ctx: &mut Ctx, prop: &'static str, classes: &'static [&'static st
         case.subdirs = r.gen_bool(0.3);
         case.shaped = r.gen_bool(0.3);
         case.dup_edges = r.gen_bool(0.3);
+        case.spaced = r.gen_bool(0.2);
+        case.no_tail = r.gen_bool(0.25);
+        case.stale_ext = matches!(case.mode, Mode::InMemoryBuild) && r.gen_bool(0.5);
+        if !acyclic_only && r.gen_bool(0.15) {
+            // an error result arrives while many other tasks are still queued or running: the run
+            // must still return (with the error)
+            case.fail_at = Some(r.gen_range(0..n));
+            case.fail_kind = [0u8, 1, 2][r.gen_range(0..3)];
+            case.input_style = 4;
+            case.threads = [1, 2][r.gen_range(0..2)];
+            ctx.count("free_running_executions_with_a_failing_file", 1);
+        }
         let natural = k % 8 == 0;
         let spec = if natural { Spec::Natural { delay: Some((r.gen(), 1500)) } } else { Spec::Free { delay: Some((r.gen(), 800)) } };
         let run = exec(ctx, &case, spec.clone(), true);
@@ -298,6 +312,12 @@ fn run_c02(ctx: &mut Ctx) {
         case.requested = subs[r.gen_range(0..subs.len())].clone();
         case.threads = r.gen_range(1..=4);
         case.dup_edges = r.gen_bool(0.3);
+        case.spaced = r.gen_bool(0.25);
+        case.no_tail = r.gen_bool(0.25);
+        if r.gen_bool(0.25) {
+            case.mode = Mode::InMemoryBuild;
+            case.stale_ext = r.gen_bool(0.7);
+        }
         sampled_schedules(ctx, "C02", C02_CLASSES, &case, &mut r, ctx.tier.pick(3, 12), *mask != 0);
     }
     // both tiers: eager-receive DFS over a few 4-file shapes in which a file with dependencies is
@@ -388,6 +408,11 @@ fn run_c02(ctx: &mut Ctx) {
                         case.subdirs = style == 4 && n >= 2 && k % 2 == 0;
                         // a third of the cases name odd files `fN.v2.txtpp.txt` (dotted stem, middle shape)
                         case.shaped = n >= 2 && k % 3 == 0;
+                        // names with an inner blank; sources that end with their last directive;
+                        // needed-mode with "fresh content + extra lines" lying at every output path
+                        case.spaced = k % 4 == 3;
+                        case.no_tail = k % 7 == 3;
+                        case.stale_ext = matches!(case.mode, Mode::InMemoryBuild) && k % 10 == 0;
                         if !dfs_case(ctx, "C02", C02_CLASSES, &case, cap, true, edge_count(mask) > 0) {
                             break 'all;
                         }
@@ -445,8 +470,13 @@ fn digraph_enumeration(ctx: &mut Ctx, prop: &'static str, classes: &'static [&'s
         case.input_style = [0, 3, 4][r.gen_range(0..3)];
         case.threads = r.gen_range(1..=4);
         case.subdirs = r.gen_bool(0.25);
+        case.no_tail = r.gen_bool(0.3);
+        case.spaced = r.gen_bool(0.15);
         let cyclic = !case.graph().is_acyclic();
         sampled_schedules(ctx, prop, classes, &case, &mut r, 3, if cyclic_only_nontrivial { cyclic } else { true });
+    }
+    if !cyclic_only_nontrivial {
+        empty_selection(ctx, prop, classes);
     }
     slow_natural(ctx, prop, classes);
     let n = ctx.tier.pick(40, 800);
@@ -506,6 +536,10 @@ fn digraph_enumeration(ctx: &mut Ctx, prop: &'static str, classes: &'static [&'s
                     case.threads = threads;
                     case.kinds = if style == 9 { mask } else if k % 3 == 0 { mask & 0x1_5555_5555 } else { 0 };
                     case.subdirs = n >= 2 && k % 7 == 0 && style != 9;
+                    // sources that end with their last dependency directive (no tail line): the edge
+                    // pending at end of file must still count (cycle detection, ordering)
+                    case.no_tail = style != 9 && k % 4 == 2;
+                    case.spaced = style != 9 && k % 5 == 4;
                     let nontrivial = if cyclic_only_nontrivial { cyclic } else { n >= 2 || style >= 3 };
                     if !dfs_case(ctx, prop, classes, &case, cap, true, nontrivial) {
                         break 'all;
@@ -514,6 +548,37 @@ fn digraph_enumeration(ctx: &mut Ctx, prop: &'static str, classes: &'static [&'s
                         break 'all;
                     }
                 }
+            }
+        }
+    }
+}
+
+/// An empty input selection (library API: `inputs: vec![]`) schedules nothing: the run must return
+/// at once, successfully, in every mode, and touch nothing.
+fn empty_selection(ctx: &mut Ctx, prop: &'static str, classes: &'static [&'static str]) {
+    let mut k = 0u64;
+    for mode in [Mode::Build, Mode::InMemoryBuild, Mode::Verify, Mode::Clean] {
+        for threads in [1usize, 2, 4] {
+            for flavour in 0..3 {
+                k += 1;
+                if !ctx.claim(9_000_000 + k) {
+                    continue;
+                }
+                let mut case = GraphCase::new(2, 0b0010);
+                case.requested = vec![];
+                case.mode = mode.clone();
+                case.threads = threads;
+                case.markers = true;
+                let spec = match flavour {
+                    0 => Spec::Natural { delay: None },
+                    1 => Spec::Free { delay: None },
+                    _ => Spec::Controlled { strategy: Strategy::Fixed(FixedOrder::RunFirstLifo), early_poll_at: None, eager_recv: false },
+                };
+                let run = exec(ctx, &case, spec.clone(), true);
+                account(ctx, &run);
+                ctx.count("empty_selection_executions", 1);
+                ctx.distinct.insert(case.hash() ^ run.trace_hash.rotate_left(13) ^ flavour);
+                report(ctx, prop, classes, &case, &run, &spec);
             }
         }
     }
